@@ -43,10 +43,17 @@ fn cases(tier: &str) -> Vec<Hier> {
     for h in shapes(4) {
         let probe = Model { h: &h, ps: 8 };
         let diamond = probe.occurrences(3).values().any(|v| v.len() > 1);
-        if !(diamond || tier == "thorough") {
+        // chains of depth 3: every type's only base is its predecessor
+        let chain = (1..4).all(|i| h.types[i].bases == vec![i - 1]);
+        // other shapes: only those in which a type with at least two bases is itself a base
+        let multi_then_derived = (0..4).any(|i| h.types[i].bases.len() >= 2 && (i + 1..4).any(|j| h.types[j].bases.contains(&i)));
+        if !(diamond || chain || multi_then_derived || tier == "thorough") {
             continue;
         }
-        for pat in [[1usize, 1, 1, 0], [3, 2, 1, 0], [4, 4, 4, 4], [1, 3, 0, 4]] {
+        // every 4-type shape sees one assignment in which the two oldest types expose the same
+        // name (a clash that an intermediate type has to resolve before the youngest inherits it)
+        let pats: Vec<[usize; 4]> = if diamond || chain || tier == "thorough" { vec![[1, 1, 1, 0], [3, 2, 1, 0], [4, 4, 4, 4], [1, 3, 0, 4], [1, 1, 0, 0]] } else { vec![[1, 1, 0, 0]] };
+        for pat in pats {
             let mut h2 = h.clone();
             for i in 0..4 {
                 let (fns, vpub) = fn_choice(i, pat[i]);
@@ -133,20 +140,19 @@ fn judge(m: &Model, fi: &synx::FileInfo, recs: &[Record]) -> Option<(String, Str
         for c in &cands {
             *wanted.entry(c.name.clone()).or_default() += 1;
         }
-        for c in &cands {
-            // `<field>_<name>` when the name is already taken; when that one is taken as well
-            // (the base itself exposes a renamed function of that name) the statement names no
-            // alternative, and any further `<field>_` prefix is accepted
+        // One valid naming: the rule applied in field order (each name is the original, or
+        // `<field>_`-prefixed until it is free). The statement fixes no order, so a candidate may
+        // also sit under its original name or its once-prefixed name; whichever name is used,
+        // the method found there must have exactly the candidate's effect.
+        let sequential = m.associated(i);
+        for (ci, c) in cands.iter().enumerate() {
             let mut names = vec![c.name.clone()];
-            if wanted[&c.name] > 1 {
-                let mut n = c.name.clone();
-                for _ in 0..3 {
-                    n = format!("{}_{}", c.field, n);
-                    names.push(n.clone());
-                    if !wanted.contains_key(&n) {
-                        break;
-                    }
-                }
+            let once = format!("{}_{}", c.field, c.name);
+            if wanted[&c.name] > 1 || wanted.contains_key(&once) || sequential[ci].0 != c.name {
+                names.push(once);
+            }
+            if !names.contains(&sequential[ci].0) {
+                names.push(sequential[ci].0.clone());
             }
             let mut ok = false;
             let mut why = vec![];
